@@ -734,4 +734,25 @@ theorem remaining_first_exact (data : List SView) (e : Nat) (hs : SortedData dat
       have ⟨a, b⟩ := newIter_first data e hs p hp
       exact visits_complete data e _ _ (Nat.le_refl _) a p hp b
 
+theorem strictInc_of_pairwise (l : List Nat) (h : l.Pairwise (· < ·)) : StrictInc l := by
+  induction l with
+  | nil => intro i j _ hj; simp at hj
+  | cons x xs ih =>
+    obtain ⟨h1, h2⟩ := List.pairwise_cons.1 h
+    intro i j hij hj
+    cases j with
+    | zero => omega
+    | succ j =>
+      cases i with
+      | zero =>
+        simp only [List.getD_cons_zero, List.getD_cons_succ]
+        have hj' : j < xs.length := by simpa using hj
+        have : xs.getD j 0 = xs[j] := by simp [List.getD_eq_getElem?_getD, hj']
+        rw [this]
+        exact h1 _ (List.getElem_mem hj')
+      | succ i =>
+        simp only [List.getD_cons_succ]
+        exact ih h2 i j (by omega) (by simpa using hj)
+
+
 end DymVerif.Incent
